@@ -95,6 +95,12 @@ def run(ctx):
         ctx.ob('C12.R4', fi, ex.line, f"the residual source{' and solvent' if len(elts) == 3 else ''} and the new solution are returned",
                ok, fact=f"returns {len(elts)} objects", why='a depleted input is not handed back: material is lost',
                key='residuals returned')
+    # both results of every aliquot transfer replace their operands (C01.R2 on this function)
+    from . import c01
+    before = len(ctx.obs)
+    c01._thread_in(ctx, fi, ff, None)
+    for o in ctx.obs[before:]:
+        o.rule = 'C12.R4'
     solves = [(c, s, b) for c, s, b in ff.calls if isinstance(c.func, ast.Attribute) and c.func.attr == 'solve']
     for c, s, b in solves:
         def present(cc):
